@@ -342,10 +342,28 @@ pub fn execute(
         if !opts.no_holdback {
             ready.retain(|(i, _)| !ctl.kernel_busy_of(*i));
         }
-        let held_back = before != ready.len();
+        let mut held_back = before != ready.len();
+        if ready.is_empty() && !ready_all.is_empty() && held_back {
+            // everybody who is not held back is taken for a spinner: the spin suppression gives way first
+            let mut r2: Vec<(usize, PointInfo)> = ready_all.clone();
+            if !opts.no_holdback {
+                r2.retain(|(i, _)| !ctl.kernel_busy_of(*i));
+            }
+            if !r2.is_empty() {
+                for c in same_cnt.iter_mut() {
+                    *c = 0;
+                }
+                for m in solo.iter_mut() {
+                    m.clear();
+                }
+                spin_rounds += 1;
+                ready = r2;
+                held_back = false;
+            }
+        }
         if ready.is_empty() && !ready_all.is_empty() && !held_back {
             spin_rounds += 1;
-            if spin_rounds > 40 {
+            if spin_rounds > 400 {
                 end = End::Budget;
                 break;
             }
@@ -424,18 +442,28 @@ pub fn execute(
                         same_cnt[i] = 0;
                     }
                     prev_pt[i] = Some((p.site, p.obj));
+                    let seen_before = solo[i].get(&(p.site, p.obj)).copied().unwrap_or(0);
                     *solo[i].entry((p.site, p.obj)).or_insert(0) += 1;
                     *passes[i].entry(p.site).or_insert(0) += 1;
                     // in the lock-free queues only a write counts as progress for the others: two spinners
                     // (loads and failing CASes) must not keep waking each other while the one they wait for starves
                     let c = crate::ctrl::cat_of(p.site);
-                    let read_like = (c == "q" || c == "tl")
-                        && (p.site.ends_with("load") || p.site.ends_with(".cas") || p.site.contains(".load_") || p.site.ends_with(".spin") || p.site.ends_with(".check"));
+                    // (elsewhere: coming back to a point it has passed since anybody made progress - e.g. the
+                    // `while wait_kernel { yield_now() }` loop - is no progress either)
+                    let read_like = if c == "q" || c == "tl" {
+                        p.site.ends_with("load") || p.site.ends_with(".cas") || p.site.contains(".load_") || p.site.ends_with(".spin") || p.site.ends_with(".check")
+                    } else {
+                        seen_before >= 1
+                    };
                     if !read_like {
-                        // (its own record too: an actor that writes is not spinning)
+                        // (in the queues its own record too: an actor that writes is not spinning; elsewhere the
+                        // own record is what tells a revisit from a first visit)
                         spin_rounds = 0;
-                        for m in solo.iter_mut() {
-                            m.clear();
+                        let own_too = c == "q" || c == "tl";
+                        for (j, m) in solo.iter_mut().enumerate() {
+                            if j != i || own_too {
+                                m.clear();
+                            }
                         }
                     }
                     for j in 0..names.len() {
